@@ -95,6 +95,15 @@ CLAIMED = {
              "NULL tests before the new value is stored and is the native key's destructor; first-use key creation frees/deletes on the "
              "losing and failing paths. " + DECIDES % "C05",
         technique="spinlock typestate over the creator path, dominance rules for the proxy and join, who-touches-field rule for ref_count, guard dataflow at release and notifier calls, holder typestate in the TLS key creation"),
+    "C11": dict(
+        text="Rules C11.1-C11.7 on pcryptohash*.c: dispatch table (every enumerator has a case, six slots from one algorithm unit, "
+             "variant-specific constructor, standard digest length fitting the state array, exact range test); dispatcher typestate "
+             "(update only while open, finish once then closed before the digest is read, reset reopens, bounded copy-out); hex "
+             "encoding as term identities; the psize update length never compared/accumulated through a narrowing cast without "
+             "high-part accounting; block-size constants agree with the buffer's byte size and the padding constants satisfy the "
+             "standard identity; reset re-initialises every field update/finish write; possibly-aliasing padding stores OR their bits "
+             "in. " + DECIDES % "C11",
+        technique="switch/slot table recovery, guard dataflow at slot calls, typed-AST narrowing rule with sibling cross-check, constant-geometry agreement with record layouts, transitive field write sets, index-aliasing rule"),
 }
 
 NOT_YET = "check not yet armed (framework under construction); see DESIGN.md section 4 for the planned structural clauses"
